@@ -73,11 +73,79 @@ pub enum Loc {
     Unparsable,
     SchemeRel,
     Empty,
+    /// member of the "tricky relative references" family (index into `tricky()`)
+    Tricky(u8),
 }
+
+/// Relative references that look like something else, resolved against the CURRENT url.
+/// Raw non-ASCII is left out (a non-ASCII response header value is C15's known finding K6);
+/// `scheme:/path` forms of a special scheme are left out (RFC 3986 and the WHATWG parser the
+/// url crate implements disagree on them, so there is no single reference).
+pub fn tricky() -> &'static [String] {
+    static T: std::sync::OnceLock<Vec<String>> = std::sync::OnceLock::new();
+    T.get_or_init(|| {
+        let mut v: Vec<String> = [
+            "/login?return_to=https://example.com/a/start", // "://" in the query
+            "seg/a://b/c",                                  // "://" in a path segment
+            "/p#frag://x",                                  // "://" in the fragment
+            "./a:b",                                        // ":" in the first segment after "./"
+            "?x=http://h/",                                 // query only, carrying a URL
+            "#f://g",                                       // fragment only
+            "/caf%C3%A9/%2F%3A%2F%2F?q=%20&r=%E2%9C%93",    // percent-encoded, incl. an encoded "://"
+            " /lead-space",                                 // leading space: stripped by the URL parser
+            "\t/lead-tab",                                  // leading tab: removed by the URL parser
+            ".",
+            "..",
+            "/../../x",                                     // ".." at the root
+            "../../../../../../up",                         // more ".." than there are segments
+            "a b/c d?e f",                                  // blanks inside: percent-encoded
+            "//c.example/x?u=http://y/",                    // scheme-relative, "://" in its query
+            "mailto:someone@example.com",                   // absolute, not hierarchical
+            "http://b.example:8080/x?next=rel://y",         // absolute, a second "://" inside
+            "%2E%2E/enc-dots",                              // percent-encoded dot segment
+            "?",                                            // empty query
+            "#",                                            // empty fragment
+            ";params=1/x;y=2",
+        ]
+        .iter()
+        .map(|s| s.to_string())
+        .collect();
+        v.push(format!("/long/{}/end?u=a://b", "segment-0123456789/".repeat(110))); // > 2 KiB
+        v
+    })
+}
+
+/// RFC 3986 section 5 resolutions worked out by hand, used to cross-check `Url::join` (the
+/// reference implementation) at start: (base, reference, target).
+const TRICKY_BY_HAND: &[(&str, &str, &str)] = &[
+    ("https://origin.example/a/b/c/d?x=1", "/login?return_to=https://example.com/a/start", "https://origin.example/login?return_to=https://example.com/a/start"),
+    ("https://origin.example/a/b/c/d?x=1", "seg/a://b/c", "https://origin.example/a/b/c/seg/a://b/c"),
+    ("https://origin.example/a/b/c/d?x=1", "./a:b", "https://origin.example/a/b/c/a:b"),
+    ("https://origin.example/a/b/c/d?x=1", "?x=http://h/", "https://origin.example/a/b/c/d?x=http://h/"),
+    ("https://origin.example/a/b/c/d?x=1", "#f://g", "https://origin.example/a/b/c/d?x=1#f://g"),
+    ("https://origin.example/a/b/c/d?x=1", "/p#frag://x", "https://origin.example/p#frag://x"),
+    ("https://origin.example/a/b/c/d?x=1", ".", "https://origin.example/a/b/c/"),
+    ("https://origin.example/a/b/c/d?x=1", "..", "https://origin.example/a/b/"),
+    ("https://origin.example/a/b/c/d?x=1", "/../../x", "https://origin.example/x"),
+    ("https://origin.example/a/b/c/d?x=1", "../../../../../../up", "https://origin.example/up"),
+    ("https://origin.example/a/b/c/d?x=1", " /lead-space", "https://origin.example/lead-space"),
+    ("https://origin.example/a/b/c/d?x=1", "\t/lead-tab", "https://origin.example/lead-tab"),
+    ("https://origin.example/a/b/c/d?x=1", "a b/c d?e f", "https://origin.example/a/b/c/a%20b/c%20d?e%20f"),
+    ("https://origin.example/a/b/c/d?x=1", "//c.example/x?u=http://y/", "https://c.example/x?u=http://y/"),
+    ("https://origin.example/a/b/c/d?x=1", "?", "https://origin.example/a/b/c/d?"),
+    ("https://a.example/one/two?k=v", "seg/a://b/c", "https://a.example/one/seg/a://b/c"),
+    ("https://a.example/one/two?k=v", "?x=http://h/", "https://a.example/one/two?x=http://h/"),
+    ("https://a.example/one/two?k=v", "..", "https://a.example/"),
+    ("https://a.example/one/two?k=v", "/p#frag://x", "https://a.example/p#frag://x"),
+    ("https://origin.example/abs/path", "./a:b", "https://origin.example/abs/a:b"),
+    ("https://origin.example/abs/path", "..", "https://origin.example/"),
+    ("https://origin.example/abs/path", "#f://g", "https://origin.example/abs/path#f://g"),
+];
 
 impl Loc {
     pub fn header(self) -> Option<&'static str> {
         Some(match self {
+            Loc::Tricky(i) => tricky()[i as usize].as_str(),
             Loc::AbsA => "https://a.example/one/two?k=v",
             Loc::AbsB => "http://b.example:8080/",
             Loc::AbsPath => "/abs/path",
@@ -138,6 +206,28 @@ pub fn alphabet55() -> Vec<Answer> {
     v
 }
 
+/// 302 with every tricky relative reference, two ordinary redirects that move the current URL
+/// away from the original one (so every tricky reference is also met at hop 2), 200 and 404.
+pub fn alphabet_tricky() -> Vec<Answer> {
+    let mut v: Vec<Answer> = (0..tricky().len()).map(|i| Answer::Status(302, Loc::Tricky(i as u8))).collect();
+    v.push(Answer::Status(302, Loc::AbsPath));
+    v.push(Answer::Status(302, Loc::AbsA));
+    v.push(Answer::Status(200, Loc::Missing));
+    v.push(Answer::Status(404, Loc::Missing));
+    v
+}
+
+fn tricky_configs() -> Vec<Config> {
+    let mut v = vec![];
+    for get in [false, true] {
+        v.push(Config { api: Api::CapSend, client: vec![], request: vec![Atom::Redirect(2)], get });
+        v.push(Config { api: Api::CapSend, client: vec![Atom::Redirect(2)], request: vec![], get });
+        v.push(Config { api: Api::CapAsync, client: vec![], request: vec![Atom::Redirect(2)], get });
+        v.push(Config { api: Api::InnerClient, client: vec![], request: vec![Atom::Redirect(2)], get });
+    }
+    v
+}
+
 /// Answers used while exploring middleware stacks.
 pub fn alphabet_stacks() -> Vec<Answer> {
     vec![
@@ -153,6 +243,9 @@ pub struct Config {
     pub api: Api,
     pub client: Vec<Atom>,
     pub request: Vec<Atom>,
+    /// the original request is a body-less GET instead of the POST with a body
+    #[serde(default)]
+    pub get: bool,
 }
 
 // ---------------------------------------------------------------------------------------------
@@ -420,7 +513,12 @@ fn outcome_of(api: Api, r: &Resp) -> String {
 
 pub fn expect(cfg: &Config, stack: &[(Atom, String)], answers: &[Answer], policy: Policy) -> ExpTrace {
     let mut run = RefRun { answers, pos: 0, out: ExpTrace::default(), policy };
-    let req = RReq { method: "POST", url: Url::parse(ORIGIN).unwrap(), body: BODY.as_bytes().to_vec(), stale_url: None };
+    let req = RReq {
+        method: if cfg.get { "GET" } else { "POST" },
+        url: Url::parse(ORIGIN).unwrap(),
+        body: if cfg.get { vec![] } else { BODY.as_bytes().to_vec() },
+        stale_url: None,
+    };
     match run.chain(stack, req) {
         Ok(r) => run.out.outcome = Some(outcome_of(cfg.api, &r)),
         Err(Pending) => {}
@@ -561,12 +659,17 @@ fn start(cfg: &Config, log: &Log) -> (Host, crate::app::Step) {
     match cfg.api {
         Api::CommandApi => {
             assert!(cfg.client.is_empty());
-            let b = CmdHttp::post(ORIGIN).header(TOKEN.0, TOKEN.1).body_string(BODY.to_string());
+            let b = if cfg.get {
+                CmdHttp::get(ORIGIN).header(TOKEN.0, TOKEN.1)
+            } else {
+                CmdHttp::post(ORIGIN).header(TOKEN.0, TOKEN.1).body_string(BODY.to_string())
+            };
             let b = attach!(b, &stack, log);
             Host::start_cmd(b.build().then_send(Event::Bytes))
         }
         api => {
             let log = log.clone();
+            let get = cfg.get;
             let program: Program = Arc::new(move |caps: &Capabilities| {
                 let mut http = caps.http.clone();
                 for (atom, tag) in &stack[..n_client] {
@@ -575,10 +678,13 @@ fn start(cfg: &Config, log: &Log) -> (Host, crate::app::Step) {
                         a => http.verif_with_client_middleware(AtomMw { atom: *a, tag: tag.clone(), log: log.clone() }),
                     };
                 }
-                let b = http
-                    .request(Method::Post, Url::parse(ORIGIN).unwrap())
-                    .header(TOKEN.0, TOKEN.1)
-                    .body_string(BODY.to_string());
+                let b = if get {
+                    http.request(Method::Get, Url::parse(ORIGIN).unwrap()).header(TOKEN.0, TOKEN.1)
+                } else {
+                    http.request(Method::Post, Url::parse(ORIGIN).unwrap())
+                        .header(TOKEN.0, TOKEN.1)
+                        .body_string(BODY.to_string())
+                };
                 match api {
                     Api::CapSend => {
                         let b = attach!(b, &stack[n_client..], log);
@@ -727,6 +833,14 @@ fn diff(exp: &ExpTrace, obs: &Trace, redirecting: bool) -> Option<(String, Strin
                 }
             }
             (Some(e), None) => {
+                if redirecting && obs.outcome.as_deref() == Some("err:url") {
+                    // the reference resolves the Location (or needs none) and goes on; the
+                    // implementation handed a URL error to the app instead
+                    return Some((
+                        "redirect/resolvable-location-rejected".into(),
+                        format!("run ended with a URL error after {} shell requests, expected request #{i} to {:?}", obs.reqs.len(), e.req.url),
+                    ));
+                }
                 if obs.outcome.is_some() {
                     let key = match e.kind {
                         Kind::Probe => "redirect/stopped-early",
@@ -780,7 +894,7 @@ pub fn middleware_ignored(
     if cfg.api != Api::CommandApi || stack.is_empty() || !cfg.client.is_empty() {
         return Ignored::No;
     }
-    let bare = Config { api: cfg.api, client: vec![], request: vec![] };
+    let bare = Config { api: cfg.api, client: vec![], request: vec![], get: cfg.get };
     if !matches_exp(&expect(&bare, &[], answers, DEFAULT_POLICY), trace) {
         return Ignored::No;
     }
@@ -889,6 +1003,7 @@ fn describe(cfg: &Config, answers: &[Answer]) -> Value {
     json!({
         "ix": CaseIx { config: cfg.clone(), answers: answers.to_vec() },
         "api": format!("{:?}", cfg.api),
+        "original_request": if cfg.get { "GET without body" } else { "POST with body" },
         "client_middleware": format!("{:?}", cfg.client),
         "request_middleware": format!("{:?}", cfg.request),
         "answers": answers.iter().map(|a| match a {
@@ -1018,11 +1133,11 @@ fn stack_configs() -> Vec<Config> {
             match api {
                 Api::CapSend | Api::CapAsync => {
                     for split in 0..=s.len() {
-                        v.push(Config { api: *api, client: s[..split].to_vec(), request: s[split..].to_vec() });
+                        v.push(Config { api: *api, client: s[..split].to_vec(), request: s[split..].to_vec(), get: false });
                     }
                 }
                 Api::InnerClient | Api::CommandApi => {
-                    v.push(Config { api: *api, client: vec![], request: s.clone() });
+                    v.push(Config { api: *api, client: vec![], request: s.clone(), get: false });
                 }
             }
         }
@@ -1032,11 +1147,11 @@ fn stack_configs() -> Vec<Config> {
 
 fn redirect_configs(n: u8) -> Vec<Config> {
     vec![
-        Config { api: Api::CapSend, client: vec![], request: vec![Atom::Redirect(n)] },
-        Config { api: Api::CapSend, client: vec![Atom::Redirect(n)], request: vec![] },
-        Config { api: Api::CapAsync, client: vec![], request: vec![Atom::Redirect(n)] },
-        Config { api: Api::InnerClient, client: vec![], request: vec![Atom::Redirect(n)] },
-        Config { api: Api::CommandApi, client: vec![], request: vec![Atom::Redirect(n)] },
+        Config { api: Api::CapSend, client: vec![], request: vec![Atom::Redirect(n)], get: false },
+        Config { api: Api::CapSend, client: vec![Atom::Redirect(n)], request: vec![], get: false },
+        Config { api: Api::CapAsync, client: vec![], request: vec![Atom::Redirect(n)], get: false },
+        Config { api: Api::InnerClient, client: vec![], request: vec![Atom::Redirect(n)], get: false },
+        Config { api: Api::CommandApi, client: vec![], request: vec![Atom::Redirect(n)], get: false },
     ]
 }
 
@@ -1044,6 +1159,19 @@ fn self_checks() -> Value {
     util::assert_no_duplicates("alphabet17", &alphabet17());
     util::assert_no_duplicates("alphabet55", &alphabet55());
     util::assert_no_duplicates("stack configs", &stack_configs());
+    util::assert_no_duplicates("tricky locations", tricky());
+    util::assert_no_duplicates("alphabet tricky", &alphabet_tricky());
+    for (base, reference, by_hand) in TRICKY_BY_HAND {
+        if !tricky().iter().any(|t| t == reference) {
+            mc_kit::machinery_error(&format!("hand-resolved reference {reference:?} is not in the tricky family"));
+        }
+        match Url::parse(base).unwrap().join(reference) {
+            Ok(u) if u.as_str() == *by_hand => {}
+            other => mc_kit::machinery_error(&format!(
+                "RFC 3986 resolution of {reference:?} against {base} by hand is {by_hand}, Url::join says {other:?}"
+            )),
+        }
+    }
     if alphabet17().len() != 17 || alphabet55().len() != 55 {
         mc_kit::machinery_error("answer alphabets have unexpected sizes");
     }
@@ -1058,7 +1186,7 @@ fn self_checks() -> Value {
         }
     }
     // 1: reference told that request middleware runs *before* client middleware
-    let cfg = Config { api: Api::CapSend, client: vec![Atom::Pass], request: vec![Atom::Pass] };
+    let cfg = Config { api: Api::CapSend, client: vec![Atom::Pass], request: vec![Atom::Pass], get: false };
     let answers = [Answer::Status(200, Loc::Missing)];
     let good = tagged(&cfg);
     let obs = as_observed(&expect(&cfg, &good, &answers, DEFAULT_POLICY));
@@ -1067,13 +1195,13 @@ fn self_checks() -> Value {
     let ok = matches_exp(&expect(&cfg, &good, &answers, DEFAULT_POLICY), &obs);
     let rejected_order = !matches_exp(&expect(&cfg, &swapped, &answers, DEFAULT_POLICY), &obs);
     // 2: reference told that Redirect(2) may probe three times
-    let cfg2 = Config { api: Api::CapSend, client: vec![], request: vec![Atom::Redirect(2)] };
+    let cfg2 = Config { api: Api::CapSend, client: vec![], request: vec![Atom::Redirect(2)], get: false };
     let answers2 = [Answer::Status(302, Loc::AbsA), Answer::Status(302, Loc::AbsB)];
     let obs2 = as_observed(&expect(&cfg2, &tagged(&cfg2), &answers2, DEFAULT_POLICY));
     let wrong = vec![(Atom::Redirect(3), "r0".to_string())];
     let rejected_bound = !matches_exp(&expect(&cfg2, &wrong, &answers2, DEFAULT_POLICY), &obs2);
     // 3: reference told that the shell is skipped
-    let cfg3 = Config { api: Api::CapSend, client: vec![], request: vec![Atom::Pass] };
+    let cfg3 = Config { api: Api::CapSend, client: vec![], request: vec![Atom::Pass], get: false };
     let obs3 = as_observed(&expect(&cfg3, &tagged(&cfg3), &answers, DEFAULT_POLICY));
     let wrong3 = vec![(Atom::Pass, "r0".to_string()), (Atom::Short, "r1".to_string())];
     let rejected_shell = !matches_exp(&expect(&cfg3, &wrong3, &answers, DEFAULT_POLICY), &obs3);
@@ -1090,9 +1218,9 @@ fn self_checks() -> Value {
     }
     // known-key canary: K7 must not absorb anything but "middleware ignored, exactly"
     {
-        let cmd = Config { api: Api::CommandApi, client: vec![], request: vec![Atom::Pass] };
+        let cmd = Config { api: Api::CommandApi, client: vec![], request: vec![Atom::Pass], get: false };
         let cmd_stack = tagged(&cmd);
-        let bare = Config { api: Api::CommandApi, client: vec![], request: vec![] };
+        let bare = Config { api: Api::CommandApi, client: vec![], request: vec![], get: false };
         let bare_run = |answers: &[Answer]| Some(as_observed(&expect(&bare, &[], answers, DEFAULT_POLICY)));
         let at_root = bare_run(&[]).unwrap();
         let is_exact = |i: Ignored| matches!(i, Ignored::Exactly);
@@ -1148,8 +1276,8 @@ fn self_checks() -> Value {
         }
         // the capability API never gets the key
         for api in [Api::CapSend, Api::CapAsync, Api::InnerClient] {
-            let cap = Config { api, client: vec![], request: vec![Atom::Pass] };
-            let cap_bare = Config { api, client: vec![], request: vec![] };
+            let cap = Config { api, client: vec![], request: vec![Atom::Pass], get: false };
+            let cap_bare = Config { api, client: vec![], request: vec![], get: false };
             let t = as_observed(&expect(&cap_bare, &[], &[], DEFAULT_POLICY));
             if !matches!(middleware_ignored(&cap, &tagged(&cap), &[], &t, &bare_run), Ignored::No) {
                 bad.push("capability API given the command-API key");
@@ -1165,7 +1293,7 @@ fn self_checks() -> Value {
     if a != b {
         mc_kit::machinery_error("C16: the same case gave two different observations");
     }
-    json!({"canary_wrong_references_rejected": 4, "canary_true_reference_accepted": ok, "known_key_canary_K7_variants_kept_apart": 9})
+    json!({"canary_wrong_references_rejected": 4, "canary_true_reference_accepted": ok, "known_key_canary_K7_variants_kept_apart": 9, "tricky_resolutions_cross_checked_by_hand": TRICKY_BY_HAND.len()})
 }
 
 pub fn replay(path: &str) -> i32 {
@@ -1262,15 +1390,24 @@ pub fn run(tier: Tier) -> i32 {
         }
     }
 
+    // part 3: tricky relative references, Redirect(2), every answer sequence of length <= 3
+    let atricky = Arc::new(alphabet_tricky());
+    for cfg in tricky_configs() {
+        jobs.push(Job { cfg: cfg.clone(), alphabet: atricky.clone(), alphabet_name: "tricky", branch_depth: 0, tail: None, prefix: vec![], part: "redirect" });
+        for a in atricky.iter() {
+            jobs.push(Job { cfg: cfg.clone(), alphabet: atricky.clone(), alphabet_name: "tricky", branch_depth: 3, tail: None, prefix: vec![*a], part: "redirect" });
+        }
+    }
+
     // smoke phase (sequential, guarded atoms only): if the chain primitive itself is broken the
     // full exploration could recurse without bound inside the real Redirect, where no guard
     // can be placed; report what the smoke phase found and stop.
     let mut smoke = Agg::new();
     let mut smoke_panicked = false;
     for cfg in [
-        Config { api: Api::CapSend, client: vec![], request: vec![Atom::Pass] },
-        Config { api: Api::CapSend, client: vec![Atom::Pass], request: vec![] },
-        Config { api: Api::CapSend, client: vec![Atom::Pass], request: vec![Atom::Pass] },
+        Config { api: Api::CapSend, client: vec![], request: vec![Atom::Pass], get: false },
+        Config { api: Api::CapSend, client: vec![Atom::Pass], request: vec![], get: false },
+        Config { api: Api::CapSend, client: vec![Atom::Pass], request: vec![Atom::Pass], get: false },
     ] {
         let stack = tagged(&cfg);
         for answers in [&[][..], &[Answer::Status(200, Loc::Missing)][..]] {
@@ -1351,7 +1488,7 @@ pub fn run(tier: Tier) -> i32 {
         "traces_validated_against_impl": total.validated,
         "evaluations": total.evaluations,
         "distinct_nontrivial": total.nontrivial,
-        "rule": "bounded-exhaustive exploration of environment answers (model_checking: stateless DFS, no sampling): a state is a (configuration, answer prefix) pair that the implementation really reaches; at every state the real code is re-executed from scratch with the prefix, and shell requests, middleware marks and outcome are compared with the reference interpreter run on the same prefix; when the implementation waits for an answer every answer of the alphabet is tried. Part 'stacks': every split of every middleware sequence of length 0..=3 over the atoms into client and request middleware, for each API; answers enumerated for the first `stack_branch_depth` shell requests, 200 afterwards. Part 'redirect': Redirect(n) alone as request middleware / client middleware / awaited / through the inner Client / in the command API, every answer sequence of length <= n+1. States are distinct by construction (a node is visited once per configuration); non-trivial = everything except the empty stack before the first answer. Below a deviating state nothing is explored",
+        "rule": "bounded-exhaustive exploration of environment answers (model_checking: stateless DFS, no sampling): a state is a (configuration, answer prefix) pair that the implementation really reaches; at every state the real code is re-executed from scratch with the prefix, and shell requests, middleware marks and outcome are compared with the reference interpreter run on the same prefix; when the implementation waits for an answer every answer of the alphabet is tried. Part 'stacks': every split of every middleware sequence of length 0..=3 over the atoms into client and request middleware, for each API; answers enumerated for the first `stack_branch_depth` shell requests, 200 afterwards. Part 'redirect': Redirect(n) alone as request middleware / client middleware / awaited / through the inner Client / in the command API, every answer sequence of length <= n+1. States are distinct by construction (a node is visited once per configuration); non-trivial = everything except the empty stack before the first answer. Part 'redirect' also holds the tricky-relative-reference family: Redirect(2) in four placements x {POST with body, GET}, every answer sequence of length <= 3 over 302 x each tricky reference, two ordinary redirects, 200, 404 (so every tricky reference is met at hop 1 and at hop 2, where the current URL differs from the original). Below a deviating state nothing is explored",
         "exhaustive": cut == 0 && !stopped_after_smoke,
         "jobs_cut_by_deadline": cut,
         "stopped_after_smoke_phase": stopped_after_smoke,
@@ -1369,6 +1506,10 @@ pub fn run(tier: Tier) -> i32 {
             "redirect_configurations": redirect_configs(1).iter().map(|c| format!("{c:?}")).collect::<Vec<_>>(),
             "answers_stacks4": astk.iter().map(|a| format!("{a:?}")).collect::<Vec<_>>(),
             "answers17": a17.iter().map(|a| format!("{a:?}")).collect::<Vec<_>>(),
+            "answers_tricky": atricky.iter().map(|a| format!("{a:?}")).collect::<Vec<_>>(),
+            "tricky_locations": tricky().iter().enumerate().map(|(i, t)| if t.len() > 120 { format!("{i}: {}... ({} bytes)", &t[..60], t.len()) } else { format!("{i}: {t:?}") }).collect::<Vec<_>>(),
+            "tricky_configurations": tricky_configs().iter().map(|c| format!("{c:?}")).collect::<Vec<_>>(),
+            "tricky_notes": "leading space is stripped and tabs are removed by the URL parser (WHATWG), for Url::parse and Url::join alike, so ' /x' and '\\t/x' resolve like '/x'; raw non-ASCII Locations are left out (C15 K6); 'https:/x' forms are left out (RFC 3986 and WHATWG disagree)",
             "answers55": a55.iter().map(|a| format!("{a:?}")).collect::<Vec<_>>(),
             "locations": locations,
             "original_request": format!("POST {ORIGIN} {}: {} body {:?}", TOKEN.0, TOKEN.1, BODY),
